@@ -176,6 +176,7 @@ class Run:
                     'comparison or a lattice point, as flagged by the rule; distinct = distinct keys',
             'samples': samples,
             'rules': rules,
+            'functions': sorted({str(o.function) for o in self.obs})[:400],
             'analysed': {k: (v if len(v) <= 80 else v[:80] + ['... %d more' % (len(v) - 80)])
                          for k, v in self.analysed.items()},
             'analysed_counts': {k: len(v) for k, v in self.analysed.items()},
